@@ -47,6 +47,7 @@ type asyncCallState struct {
 func (c RawConfiguration) AsyncCall(ctx context.Context, d QuorumCallData) *Async {
 	expectedReplies := len(c)
 	md := &ordering.Metadata{MessageID: c.getMsgID(), Method: d.Method}
+	vEmit("CallStart", 0, md.MessageID, "kind", "async", "size", len(c), "ctx", ctx)
 	replyChan := make(chan response, expectedReplies)
 
 	for _, n := range c {
@@ -55,11 +56,15 @@ func (c RawConfiguration) AsyncCall(ctx context.Context, d QuorumCallData) *Asyn
 			msg = d.PerNodeArgFn(d.Message, n.id)
 			if !msg.ProtoReflect().IsValid() {
 				expectedReplies--
+				vEmit("CallSkip", n.id, md.MessageID)
 				continue // don't send if no msg
 			}
 		}
+		vGate("CallEnqWait", n.id, md.MessageID)
 		n.channel.enqueue(request{ctx: ctx, msg: &Message{Metadata: md, Message: msg}}, replyChan, false)
+		vEmit("CallEnq", n.id, md.MessageID)
 	}
+	vEmit("CallIssued", 0, md.MessageID, "expected", expectedReplies)
 
 	fut := &Async{c: make(chan struct{}, 1)}
 
@@ -88,19 +93,24 @@ func (c RawConfiguration) handleAsyncCall(ctx context.Context, fut *Async, state
 		case r := <-state.replyChan:
 			if r.err != nil {
 				errs = append(errs, nodeError{nodeID: r.nid, cause: r.err})
+				vEmit("CallRecv", r.nid, state.md.MessageID, "err", true, "nerr", len(errs), "nrep", len(replies))
 				break
 			}
 			replies[r.nid] = r.msg
+			vEmit("CallRecv", r.nid, state.md.MessageID, "err", false, "nerr", len(errs), "nrep", len(replies))
 			if resp, quorum = state.data.QuorumFunction(state.data.Message, replies); quorum {
 				fut.reply, fut.err = resp, nil
+				vEmit("CallEnd", 0, state.md.MessageID, "out", "ok", "nerr", len(errs), "nrep", len(replies))
 				return
 			}
 		case <-ctx.Done():
 			fut.reply, fut.err = resp, QuorumCallError{cause: ctx.Err(), errors: errs, replies: len(replies)}
+			vEmit("CallEnd", 0, state.md.MessageID, "out", "ctx", "nerr", len(errs), "nrep", len(replies))
 			return
 		}
 		if len(errs)+len(replies) == state.expectedReplies {
 			fut.reply, fut.err = resp, QuorumCallError{cause: Incomplete, errors: errs, replies: len(replies)}
+			vEmit("CallEnd", 0, state.md.MessageID, "out", "incomplete", "nerr", len(errs), "nrep", len(replies))
 			return
 		}
 	}
